@@ -260,11 +260,30 @@ def _apply_section(sec, head, it, data, s0, e0, what, edits, drop, tags_box, ret
         at = lp["span"][0] if kw == "beforeloop" else lp["span"][1]
         edits.append(Edit(at, at, "\n" + body + "\n", "ins:" + kw, tl))
     elif kw in ("before", "after"):
-        m = ANCH.search(head)
-        if not m:
-            raise GenError(f"template line {tl}: bad anchor syntax")
-        nth = int(m.group(2)) if m.group(2) else None
-        anchor = m.group(1).replace("<NL>", "\n")
+        # alternatives: "after `A` or before `B`:" — the first anchor that is found wins (a change that deletes the statement
+        # one anchor names usually leaves its neighbour in place)
+        alts = re.split(r"\s+or\s+(?=(?:before|after)\s+`)", head)
+        head0 = head
+        last_err = None
+        for alt_i, alt in enumerate(alts):
+            kw = alt.split()[0]
+            m = ANCH.search(alt)
+            if not m:
+                raise GenError(f"template line {tl}: bad anchor syntax")
+            nth = int(m.group(2)) if m.group(2) else None
+            anchor = m.group(1).replace("<NL>", "\n")
+            try:
+                find_anchor(data[s0:e0], anchor, nth, what)
+                break
+            except GenError as ex_:
+                last_err = ex_
+        else:
+            # none found: fall back on the first alternative (its statement position is what the anchor file records)
+            kw = alts[0].split()[0]
+            m = ANCH.search(alts[0])
+            nth = int(m.group(2)) if m.group(2) else None
+            anchor = m.group(1).replace("<NL>", "\n")
+        head = head0
         try:
             off = s0 + find_anchor(data[s0:e0], anchor, nth, what)
             if kw == "after":
